@@ -423,6 +423,9 @@ pub struct GState {
     /// number of entries in the implementation's directory table (includes directories opened on a
     /// volume handle that is not open - the known finding - which `dirs` does not track)
     pub dir_slots_used: usize,
+    /// handles of directories opened on a volume handle that is not open (the known finding): they occupy a
+    /// slot of the implementation's table until closed
+    pub ghost_dirs: Vec<u32>,
 }
 
 pub const NAME_POOL: [&str; 14] = ["A.TXT", "B.BIN", "NEW.DAT", "LOG", "X.Y", "DIR1", "DIR2", "F0.DAT", "F1.DAT", "F2.DAT", "INNER.TXT", "SUB", "EMPTY", "ZZZZZZZZ.ZZZ"];
@@ -482,7 +485,7 @@ fn pick_len(rng: &mut Rng, cb: usize, max: usize) -> usize {
 
 impl GState {
     pub fn new(sc: &Scenario) -> GState {
-        GState { trees: sc.vols.iter().map(|v| v.tree.clone()).collect(), vols: vec![], dirs: vec![], files: vec![], closed_handles: vec![], clock: ts(46, 2, 0, 19, 56, 54), dir_slots_used: 0 }
+        GState { trees: sc.vols.iter().map(|v| v.tree.clone()).collect(), vols: vec![], dirs: vec![], files: vec![], closed_handles: vec![], clock: ts(46, 2, 0, 19, 56, 54), dir_slots_used: 0, ghost_dirs: vec![] }
     }
 
     fn file_len(&self, f: &GFile) -> usize {
@@ -499,6 +502,31 @@ impl GState {
 
     /// choose the next operation
     pub fn next_op(&self, rng: &mut Rng, sc: &Scenario, p: &Profile) -> Op {
+        let op = self.next_op_raw(rng, sc, p);
+        if p.wrap && rng.chance(1, 3) { self.to_wrapper(op, rng) } else { op }
+    }
+
+    /// The same call through the wrapper layer (with the wider argument types of embedded-io's `SeekFrom`).
+    fn to_wrapper(&self, op: Op, rng: &mut Rng) -> Op {
+        match op {
+            Op::Read(f, n) => Op::IoRead(f, if rng.chance(1, 10) { 0 } else { n }),
+            Op::Write(f, b) => Op::IoWrite(f, if rng.chance(1, 12) { vec![] } else { b }),
+            Op::Flush(f) => Op::IoFlush(f),
+            Op::SeekStart(f, n) => Op::IoSeekStart(f, match rng.below(8) { 0 => n as u64 + (1u64 << 32), 1 => u64::MAX, 2 => 1u64 << 32, _ => n as u64 }),
+            Op::SeekEnd(f, n) => Op::IoSeekEnd(f, match rng.below(8) { 0 => n as i64, 1 => i64::MIN, 2 => -(n as i64) - (1i64 << 32), 3 => i64::MAX, _ => -(n as i64) }),
+            Op::SeekCur(f, n) => Op::IoSeekCur(f, match rng.below(8) { 0 => n as i64 + (1i64 << 32), 1 => i64::MIN, 2 => i64::MAX, 3 => n as i64 - (1i64 << 32), _ => n as i64 }),
+            Op::Length(f) => Op::WLength(f),
+            Op::Offset(f) => Op::WOffset(f),
+            Op::Eof(f) => Op::WEof(f),
+            Op::CloseFile(f) => if rng.chance(1, 2) { Op::WCloseFile(f) } else { Op::WDropFile(f) },
+            Op::CloseDir(d) => if rng.chance(1, 2) { Op::WCloseDir(d) } else { Op::WDropDir(d) },
+            Op::CloseVolume(v) => if rng.chance(1, 2) { Op::WCloseVolume(v) } else { Op::WDropVolume(v) },
+            Op::OpenDir(d, n) if self.dirs.first().map(|x| x.handle) != Some(d) => Op::WChangeDir(d, n),
+            other => other,
+        }
+    }
+
+    fn next_op_raw(&self, rng: &mut Rng, sc: &Scenario, p: &Profile) -> Op {
         // make sure something is open to work with
         if self.vols.is_empty() {
             return Op::OpenVolume(sc.vols[rng.below(sc.vols.len() as u64) as usize].slot);
@@ -662,6 +690,7 @@ impl GState {
                     } else {
                         // known finding: a directory on a volume that is not open; track it as unusable
                         self.closed_handles.push(h);
+                        self.ghost_dirs.push(h);
                     }
                 }
             }
@@ -686,6 +715,7 @@ impl GState {
             Op::CloseDir(d) => {
                 if ok {
                     self.dir_slots_used = self.dir_slots_used.saturating_sub(1);
+                    self.ghost_dirs.retain(|x| x != d);
                     self.dirs.retain(|x| x.handle != *d);
                     self.closed_handles.push(*d);
                 }
